@@ -10,7 +10,7 @@ Local Open Scope N_scope.
 
 Definition opt_nonempty (o : option bytes) : Prop := match o with Some b => len b <> 0 | None => True end.
 
-Fixpoint wf_filter (f : filter) : Prop :=
+Fixpoint wf_filter (f : qfilter) : Prop :=
   match f with
   | FWhat mn mx => mn < two32 /\ mx < two32                                   (* uint32 _minWhatCode, _maxWhatCode *)
   | FExists _ idx tc => idx < two32 /\ tc < two32                            (* uint32 _index, _typeCode *)
